@@ -458,8 +458,12 @@ class Program(object):
                 if "%s.%s" % (c.qual, m) in kn:
                     continue
                 for b in bases:
-                    if self.mro_lookup(b, m) is not None and not (m.startswith("__") and m.endswith("__") and m != "__init__"):
-                        out.append("%s.%s.%s overrides %s" % (c.module, c.qual, m, self.mro_lookup(b, m).fq))
+                    bm = self.mro_lookup(b, m)
+                    if bm is not None and not (m.startswith("__") and m.endswith("__") and m != "__init__"):
+                        # (shadowing a method that is itself new takes nothing away from the functions the rules were confirmed on)
+                        if bm.qual not in known.get(bm.module, set()):
+                            continue
+                        out.append("%s.%s.%s overrides %s" % (c.module, c.qual, m, bm.fq))
         return out
 
     def mro_lookup(self, cls, name):
